@@ -67,4 +67,20 @@ var propSpecs = []propSpec{
 		outside: "longer histories, other pattern pools",
 		stubs:   stdStubs,
 	},
+	{
+		id: "C05",
+		runs: []runSpec{
+			{dir: "mux", entry: "ZZC05Req", quick: seq(0, []int{0, 1, 2, 3, 4, 5, 6, 7}, 8), thorough: seq(0, []int{0, 1, 2, 3, 4, 5, 6, 7}, 11)},
+			{dir: "mux", entry: "ZZC05Grp", quick: []int{33}, thorough: []int{54}},
+			{dir: "mux", entry: "ZZC05Host", quick: []int{6}, thorough: []int{9}},
+			{dir: "mux", entry: "ZZC05Ver", quick: []int{6}, thorough: []int{10}},
+			{dir: "mux", entry: "ZZC05Pat", quick: []int{6}, thorough: []int{8}},
+		},
+		covers:  []string{"request", "group-request", "host-match", "version-match", "handle-registered", "handle-rejected"},
+		bounds:  "Router.ServeHTTP: path = every byte string <= 8 bytes (incl. \"\", \"*\", non-UTF-8), method = every byte string <= 4 bytes, on the 8 route-table histories of C01 (which include Remove/Clean/Prefix.Clean states); Group.ServeHTTP with Hosts, path-version, header-version and And matchers: Host <= 3 ASCII bytes, path <= 3 bytes, 5 methods, 6 Accept headers; Hosts.Match: Host <= 6 ASCII bytes on 9 domains after a Delete; path-version matcher: path <= 6 bytes; patterns: every byte string <= 6 bytes into CheckSyntax, URL, Router.URL (strict and not), Handle on an empty and on a populated router",
+		boundsT: "paths <= 11, Group host <= 5 / path <= 4, Hosts host <= 9, patterns <= 8 bytes",
+		outside: "longer inputs (the math.MaxInt16 segment limit is not reachable); Host bytes >= 0x80 (strings.ToLower is modelled for ASCII only); arbitrary Accept headers (mime.ParseMediaType runs natively on 6 concrete headers); panics raised by user handlers or interceptors",
+		assume:  []string{"regexp.Compile on a symbolic expression is an uninterpreted, consistent function of its bytes that never panics"},
+		stubs:   append(append([]string{}, stdStubs...), "strings.ToLower: exact for ASCII; regexp.QuoteMeta, strings.TrimSpace: byte-wise models; mime.ParseMediaType on concrete headers: the real function"),
+	},
 }
